@@ -118,6 +118,7 @@ type Discharger struct {
 	mu       sync.Mutex
 	stats    map[string]int
 	total    float64
+	seq      int
 }
 
 func NewDischarger(cacheDir string, useCache bool, timeout int) *Discharger {
@@ -171,10 +172,14 @@ func (d *Discharger) Discharge(w *World, o *Obligation) {
 			}
 		}
 	}
-	file := filepath.Join(d.tmp, hs+".smt2")
+	d.mu.Lock()
+	d.seq++
+	uniq := fmt.Sprintf("%s-%d", hs[:16], d.seq)
+	d.mu.Unlock()
+	file := filepath.Join(d.tmp, uniq+".smt2")
 	os.WriteFile(file, []byte(qtext), 0o644)
 	defer os.Remove(file)
-	ufile := filepath.Join(d.tmp, hs+".uf.smt2")
+	ufile := filepath.Join(d.tmp, uniq+".uf.smt2")
 	hasStr := strings.Contains(qtext, "String") || strings.Contains(qtext, "str.")
 	if hasStr {
 		os.WriteFile(ufile, []byte(toUF(qtext)), 0o644)
@@ -278,7 +283,7 @@ func (d *Discharger) Discharge(w *World, o *Obligation) {
 		return
 	}
 	if sat != nil {
-		_, mt, _ := runSolver(context.Background(), sat.v.s, mfileFor(d, w, o, hs), d.timeout)
+		_, mt, _ := runSolver(context.Background(), sat.v.s, mfileFor(d, w, o, uniq), d.timeout)
 		o.Status, o.Solver, o.Model = "failed", sat.v.s.name, mt
 		return
 	}
